@@ -5,7 +5,7 @@
  * when a sanitizer kills the process the driver script knows which case did it: the first case
  * without a result line = FAULT).
  *
- * Link with -Wl,--wrap=malloc,--wrap=calloc,--wrap=realloc,--wrap=free,--wrap=psGetBrokenDownGMTime
+ * Link with -Wl,--wrap=malloc,--wrap=calloc,--wrap=realloc,--wrap=free,--wrap=psGetBrokenDownGMTime,--wrap=psDes3Init,--wrap=psAesInitCBC
  * Every input buffer handed to the library is an EXACT-size heap block (no slack, no terminator
  * unless the case supplies one) so that AddressSanitizer sees every read outside [0,limit).
  *
@@ -15,9 +15,9 @@
  *   gn <len> <hex: GeneralNames bytes .. extEnd> <hex: DER certificate containing them as SAN>
  *   dn <hex>            psX509GetDNAttributes on a buffer cut at the end of the Name SEQUENCE
  *   b64 <outcap> <hex of the text>
- *   pemchk <type> <hex> | pemdec <hex> | pemlist <hex>
+ *   pemchk <type> <hex> | pemdec <hex> | pemlist <hex> | pempw <pw hex|NULL> <hex>
  * whole-parser ops (implementation only):  <op> <hex> [<hex password>]  ->  rc=<ok|fail> C=<0|1> L=<leaked blocks>
- *   cert certdata crl ocsp pkcs8 p12 dhparams pubkey privkey keys
+ *   cert certdata crl ocsp pkcs8 p12 dhparams pubkey privkey keys ; kload <rsa|ec|any> <cert> <key> [<CA>] ; pkfile <pw|NULL> <file bytes>
  */
 #include "matrixssl/matrixsslImpl.h"
 #define WRAP_TIME
@@ -102,6 +102,15 @@ void *__wrap_malloc(size_t n) { void *p = __real_malloc(n); tbl_put(p, n); retur
 void *__wrap_calloc(size_t a, size_t b) { void *p = __real_calloc(a, b); tbl_put(p, a * b); return p; }
 void *__wrap_realloc(void *o, size_t n) { void *p = __real_realloc(o, n); if (p || n == 0) tbl_del(o); tbl_put(p, n); return p; }
 void __wrap_free(void *p) { tbl_del(p); __real_free(p); }
+
+/* ---- psPemDecode's cipher set-up is observed through link-time wraps (kind and IV it parsed from DEK-Info) */
+int32_t __real_psDes3Init(psDes3_t *ctx, const unsigned char *IV, const unsigned char *key);
+int32_t __real_psAesInitCBC(psAesCbc_t *ctx, const unsigned char *IV, const unsigned char *key, uint8_t keylen, uint32_t flags);
+static int g_ck = 0; static unsigned char g_civ[16];
+int32_t __wrap_psDes3Init(psDes3_t *ctx, const unsigned char *IV, const unsigned char *key)
+{ g_ck = 1; memcpy(g_civ, IV, 8); return __real_psDes3Init(ctx, IV, key); }
+int32_t __wrap_psAesInitCBC(psAesCbc_t *ctx, const unsigned char *IV, const unsigned char *key, uint8_t keylen, uint32_t flags)
+{ g_ck = 2; memcpy(g_civ, IV, 16); return __real_psAesInitCBC(ctx, IV, key, keylen, flags); }
 
 /* exact-size heap copy of a hex token */
 static unsigned char *exact(const char *h, size_t *len)
@@ -340,6 +349,21 @@ static void op_pem(void)
         b = exact(g_tok[2], &n);
         psBool_t ok = psPemCheckOk(b, n, (psPemType_t) atoi(g_tok[1]), &s, &e, &pl);
         if (ok) printf("ok s=%ld e=%ld\n", (long) ((unsigned char *) s - b), (long) ((unsigned char *) e - b)); else printf("no\n");
+    } else if (!strcmp(op, "pempw")) {
+        /* psPemDecode with a password ("NULL" = none, "-" = empty string): header parsing of encrypted PEM */
+        unsigned char *out = NULL, *pw = NULL; psSizeL_t ol = 0; size_t pn = 0; char *pass = NULL;
+        if (strcmp(g_tok[1], "NULL")) { pw = exact(g_tok[1], &pn); pass = malloc(pn + 1); memcpy(pass, pw, pn); pass[pn] = 0; }
+        b = exact(g_tok[2], &n);
+        g_ck = 0;
+        int32 rc = psPemDecode(NULL, b, n, pass, &out, &ol);
+        if (rc < 0) printf("rc=%d\n", rc);
+        else {
+            printf("ok k=%d iv=", g_ck); puthex(g_civ, g_ck == 1 ? 8 : g_ck == 2 ? 16 : 0);
+            printf(" len=%zu d=", (size_t) ol);
+            if (g_ck == 0) puthex(out, ol); else printf("?");
+            printf("\n"); psFree(out, NULL);
+        }
+        if (pass) free(pass); if (pw) free(pw);
     } else if (!strcmp(op, "pemdec")) {
         unsigned char *out = NULL; psSizeL_t ol = 0;
         b = exact(g_tok[1], &n);
@@ -470,6 +494,59 @@ out:
     free(b); if (pass) free(pass); if (pw) free(pw);
 }
 
+/* kload <rsa|ec|any> <cert hex|-> <key hex|-> [<CA hex|->] */
+static void op_kload(void)
+{
+    size_t cn, kn, an = 0; unsigned char *c = exact(g_tok[2], &cn), *k = exact(g_tok[3], &kn), *a = NULL;
+    sslKeys_t *keys = NULL; int32 rc = -1; long live0;
+    if (g_ntok > 4) a = exact(g_tok[4], &an);
+    live0 = g_live; g_bad = 0; g_why[0] = 0;
+    if (matrixSslNewKeys(&keys, NULL) >= 0) {
+        const unsigned char *cp = cn ? c : NULL, *kp = kn ? k : NULL, *ap = an ? a : NULL;
+        if (!strcmp(g_tok[1], "rsa")) rc = matrixSslLoadRsaKeysMem(keys, cp, (int32) cn, kp, (int32) kn, ap, (int32) an);
+#ifdef USE_ECC
+        else if (!strcmp(g_tok[1], "ec")) rc = matrixSslLoadEcKeysMem(keys, cp, (int32) cn, kp, (int32) kn, ap, (int32) an);
+#endif
+        else rc = matrixSslLoadKeysMem(keys, cp, (int32) cn, kp, (int32) kn, ap, (int32) an, NULL);
+        if (rc >= 0) {
+# ifdef USE_CLIENT_SIDE_SSL
+            walk_cert(keys->CAcerts);
+# endif
+            for (sslIdentity_t *id = keys->identity; id; id = id->next) walk_cert(id->cert);
+        }
+        matrixSslDeleteKeys(keys);
+    }
+    printf("rc=%s C=%d L=%ld%s%s\n", rc >= 0 ? "ok" : "fail", g_bad ? 0 : 1, g_live - live0, g_bad ? " why=" : "", g_bad ? g_why : "");
+    free(c); free(k); if (a) free(a);
+}
+
+/* pkfile <pw hex|NULL> <file bytes>: the file-based private key entry points (these take the PEM password) */
+static void op_pkfile(void)
+{
+#if defined(MATRIX_USE_FILE_SYSTEM) && defined(USE_RSA) && defined(USE_PRIVATE_KEY_PARSING)
+    size_t n, pn = 0; unsigned char *b, *pw = NULL, *der = NULL; char *pass = NULL; psSize_t dl = 0;
+    char path[64]; int fd; long live0; int32 rc1, rc2; psRsaKey_t key;
+    if (strcmp(g_tok[1], "NULL")) { pw = exact(g_tok[1], &pn); pass = malloc(pn + 1); memcpy(pass, pw, pn); pass[pn] = 0; }
+    b = exact(g_tok[2], &n);
+    snprintf(path, sizeof path, "/var/tmp/h_asn.%d.pem", (int) getpid());
+    fd = open(path, O_WRONLY | O_CREAT | O_TRUNC, 0600);
+    if (fd < 0 || write(fd, b, n) != (ssize_t) n) { printf("BADCASE\n"); if (fd >= 0) close(fd); goto done; }
+    close(fd);
+    live0 = g_live;
+    rc1 = psPkcs1DecodePrivFile(NULL, path, pass, &der, &dl);
+    if (rc1 >= 0) psFree(der, NULL);
+    memset(&key, 0, sizeof key);
+    rc2 = psPkcs1ParsePrivFile(NULL, path, pass, &key);
+    if (rc2 >= 0) psRsaClearKey(&key);
+    printf("rc=%s C=1 L=%ld dec=%s\n", rc2 >= 0 ? "ok" : "fail", g_live - live0, rc1 >= 0 ? "ok" : "fail");
+done:
+    unlink(path);
+    free(b); if (pass) free(pass); if (pw) free(pw);
+#else
+    printf("rc=fail C=1 L=0\n");
+#endif
+}
+
 #include <signal.h>
 static void on_alarm(int sig)
 {
@@ -490,6 +567,9 @@ int main(void)
         if (g_ntok < 2) printf("BADCASE\n");
         else if (!strcmp(op, "gn") && g_ntok >= 4) op_gn();
         else if (!strcmp(op, "dn")) op_dn();
+        else if (!strcmp(op, "kload") && g_ntok >= 4) op_kload();
+        else if (!strcmp(op, "pkfile") && g_ntok >= 3) op_pkfile();
+        else if (!strcmp(op, "pempw") && g_ntok >= 3) op_pem();
         else if (!strcmp(op, "b64") && g_ntok >= 3) op_b64();
         else if (!strncmp(op, "pem", 3)) op_pem();
         else if (!strcmp(op, "len32") || !strcmp(op, "seq32") || !strcmp(op, "set32") || !strcmp(op, "oid") || !strcmp(op, "oidcopy")) { if (g_ntok >= 3) op_prim(); else printf("BADCASE\n"); }
